@@ -114,16 +114,18 @@ impl<'input> LambdaASTLexer<'input> {
         start_offset: usize,
         condition: impl Fn(char) -> bool,
     ) -> &'input str {
-        let mut end_pos = start_offset;
+        // offsets are in bytes while accepted characters may be wider than one byte
+        let first_char_len = self.input[start_offset..].chars().next().map_or(0, char::len_utf8);
+        let mut end_offset = start_offset + first_char_len;
         while let Some((pos, ch)) = self.chars.peek() {
             if !condition(*ch) {
                 break;
             }
-            end_pos = *pos;
+            end_offset = *pos + ch.len_utf8();
             self.chars.next();
         }
 
-        &self.input[start_offset..end_pos + 1]
+        &self.input[start_offset..end_offset]
     }
 
     fn try_parse_first_token(&mut self) -> Spanned<Token<'input>, usize, LexerError> {
